@@ -3,6 +3,8 @@ import TenpyModel.C20.Threaded
 Invariants of the `ThreadedStorage`/`Worker` transition system and their preservation by every step.
 The property theorems are in `PropsThreaded.lean`.
 -/
+set_option linter.unusedSimpArgs false
+set_option linter.unusedVariables false
 namespace TenpyModel.C20.Threaded
 
 def holds : WPc → Nat
@@ -50,5 +52,120 @@ theorem invB_reach {s0 s : St} (h0 : InvB s0) (h : Reach s0 s) : InvB s := by
     cases t
     · exact invB_stepMain _ _ ih hs
     · exact invB_stepWorker _ _ ih hs
+
+
+/-! ## Invariants for linearizability -/
+
+
+/-- task held by the worker whose `_loaded` write is still to come (`run`: not yet executed) -/
+def held (w : WPc) : List Task :=
+  match w with
+  | .run t => [t]
+  | .setLoaded k _ => [⟨.load, k, false⟩]
+  | _ => []
+
+/-- tasks in flight, in execution order -/
+def infl (s : St) : List Task := held s.wpc ++ s.queue
+
+/-- tasks whose disk effect has not happened yet -/
+def pend (s : St) : List Task := (match s.wpc with | .run t => [t] | _ => []) ++ s.queue
+
+def overlay (d : Key → Option Val) (ts : List Task) : Key → Option Val := ts.foldl applyTask d
+
+def healthy : WPc → Bool
+  | .isSet | .get | .run _ | .setLoaded _ _ | .taskDone false => true
+  | _ => false
+
+/-- the task main is about to `put` -/
+def putPending : MPc → Option Task
+  | .isSet (.toPut t _) | .isAlive (.toPut t _) | .put t _ => some t
+  | _ => none
+
+/-- main is inside `save(k, ·)` after `join_tasks` returned / on the path without join -/
+def saveRegion (m : MPc) (k : Key) : Prop :=
+  match m with
+  | .isSet (.joined (.saveC k' _)) | .isAlive (.joined (.saveC k' _)) | .saveC k' _ | .saveSet k' _ => k' = k
+  | .isSet (.toPut t _) | .isAlive (.toPut t _) | .put t _ => (∃ v, t.kind = .save v) ∧ t.key = k
+  | _ => False
+
+/-- main is inside `save(k, ·)` on the path through `join_tasks` (so `k ∈ _waiting_for_load`) -/
+def saveJoinPath (m : MPc) (k : Key) : Prop :=
+  match m with
+  | .isSet (.toJoin (.saveC k' _)) | .isAlive (.toJoin (.saveC k' _)) | .join (.saveC k' _)
+  | .isSet (.joined (.saveC k' _)) | .isAlive (.joined (.saveC k' _)) | .saveC k' _ | .saveSet k' _ => k' = k
+  | _ => False
+
+/-- main is between `val = self._loaded[key]` and `del self._loaded[key]` -/
+def loadDelKey : MPc → Option Key
+  | .loadDel k _ => some k
+  | _ => none
+
+def hasErr (s : St) : Prop := ∃ e, Out.err e ∈ s.outs
+
+/-- R: after a load of key k only deletes of k may be in flight -/
+def LoadThenOnlyDelete (t t' : Task) : Prop := t.kind = .load → t'.key = t.key → t'.kind = .delete
+
+structure InvA (s : St) : Prop where
+  unf : s.unfinished = s.queue.length + holds s.wpc
+  i4  : ∀ k, s.loaded k ≠ none → s.waiting k = true ∨ loadDelKey s.mpc = some k
+  f   : ∀ t ∈ infl s, t.kind = .load → s.waiting t.key = true ∧ s.loaded t.key = none
+  n   : (infl s).Pairwise LoadThenOnlyDelete
+  sr  : ∀ k, saveRegion s.mpc k → ∀ t ∈ infl s, t.kind = .load → t.key ≠ k
+  d   : healthy s.wpc = true → ∀ k, overlay s.disk (pend s) k = s.abs k
+  w   : ∀ k v, s.wpc = .setLoaded k v → ∀ a, s.abs k = some a → a = v
+  p   : ∀ t, putPending s.mpc = some t → ∀ v, t.kind = .save v → s.loaded t.key = none ∨ s.loaded t.key = some v
+  l   : ¬ hasErr s → ∀ k v, s.loaded k = some v →
+          (∀ t, putPending s.mpc = some t → ¬ ((∃ v', t.kind = .save v') ∧ t.key = k)) →
+          ∀ a, s.abs k = some a → a = v
+  ld  : ∀ k v, s.mpc = .loadDel k v → ∀ a, s.abs k = some a → a = v
+  r   : ∀ x ∈ s.reads, ∀ a, x.2.2 = some a → x.2.1 = a
+  pl  : ∀ t, putPending s.mpc = some t → t.kind = .load →
+          s.waiting t.key = true ∧ s.loaded t.key = none ∧ ∀ t' ∈ infl s, t'.kind = .load → t'.key ≠ t.key
+  sw  : ∀ k, saveJoinPath s.mpc k → s.waiting k = true
+  pc  : ∀ k, s.mpc = .preC k → s.waiting k = false
+  z   : hasErr s → s.prog = [] ∧
+          (s.mpc = .idle ∨ s.mpc = .closeAlive ∨ s.mpc = .closeSetExit ∨ s.mpc = .closeTJoin ∨ s.mpc = .done)
+
+theorem invA_init (prog : List Call) (maxsize : Nat) (failAt : Option Nat) : InvA (init prog maxsize failAt) := by
+  constructor <;> simp [init, holds, infl, held, pend, overlay, hasErr, saveRegion, saveJoinPath, putPending, loadDelKey]
+
+
+theorem overlay_append (d : Key → Option Val) (ts : List Task) (t : Task) :
+    overlay d (ts ++ [t]) = applyTask (overlay d ts) t := by
+  simp [overlay, List.foldl_append]
+
+theorem overlay_cons (d : Key → Option Val) (ts : List Task) (t : Task) :
+    overlay d (t :: ts) = overlay (applyTask d t) ts := rfl
+
+/-- split `hs : stepMain s = some s'` with the pc known -/
+macro "main_pc" hs:ident hm:ident : tactic => `(tactic| (
+  simp only [stepMain, $hm:ident, raise, finish, afterPut, afterJoin] at $hs:ident
+  repeat' (split at $hs:ident)
+  all_goals (first | (simp only [Option.some.injEq] at $hs:ident; subst $hs:ident) | (exact absurd $hs:ident (by simp)))))
+
+/-- fields that only depend on queue / wpc / disk / abs / unfinished -/
+theorem invA_frame (s s' : St) (h : InvA s) (hq : s'.queue = s.queue) (hw : s'.wpc = s.wpc)
+    (hdk : s'.disk = s.disk) (ha : s'.abs = s.abs) (hu : s'.unfinished = s.unfinished) :
+    (s'.unfinished = s'.queue.length + holds s'.wpc) ∧ (infl s').Pairwise LoadThenOnlyDelete ∧
+    (healthy s'.wpc = true → ∀ k, overlay s'.disk (pend s') k = s'.abs k) ∧
+    (∀ k v, s'.wpc = .setLoaded k v → ∀ a, s'.abs k = some a → a = v) ∧ infl s' = infl s := by
+  refine ⟨?_, ?_, ?_, ?_, ?_⟩
+  · rw [hu, hq, hw]; exact h.unf
+  · simp only [infl, hq, hw]; exact h.n
+  · simp only [pend, hq, hw, hdk, ha]; exact h.d
+  · rw [hw, ha]; exact h.w
+  · simp only [infl, hq, hw]
+
+macro "fld" : tactic => `(tactic| (
+  simp only [infl, hasErr, putPending, saveRegion, saveJoinPath, mkTask, loadDelKey, Option.isNone_iff_eq_none] at * <;> grind))
+
+theorem infl_nil (s : St) (hu : s.unfinished = s.queue.length + holds s.wpc) (h0 : s.unfinished = 0) :
+    held s.wpc ++ s.queue = [] := by
+  have h1 : s.queue.length = 0 := by omega
+  have h2 : holds s.wpc = 0 := by omega
+  have h3 : s.queue = [] := List.eq_nil_of_length_eq_zero h1
+  rw [h3]
+  cases hw : s.wpc <;> simp_all [holds, held]
+
 
 end TenpyModel.C20.Threaded
